@@ -128,6 +128,30 @@ struct state
     }
 };
 
+// Text arguments of the declaration calls are handed over as std::string, as const char* or as an lvalue
+// character buffer that is LARGER than the text (a `char buf[64]` filled by snprintf), in rotation: the
+// declared text is the C string in all three cases.
+template <typename F>
+static auto with_text(const std::string& v, F&& f) -> decltype(f(v))
+{
+    static unsigned long calls = 0;
+    unsigned long k = calls++ % 3;
+    bool plain = v.find('\0') == std::string::npos;
+    if (k == 1 && plain)
+    {
+        const char* p = v.c_str();
+        return f(p);
+    }
+    if (k == 2 && plain && v.size() < 63)
+    {
+        char buf[64];
+        std::memset(buf, 'Z', sizeof buf); // stale bytes behind the terminator
+        std::memcpy(buf, v.c_str(), v.size() + 1);
+        return f(buf);
+    }
+    return f(v);
+}
+
 static std::string join_hex(const std::vector<std::string>& v)
 {
     std::string r;
@@ -185,6 +209,18 @@ static std::string report_arguments(state& st, const no::arguments& a)
         std::string e2 = guarded([&] { v2 = hex(a[i]); });
         if (e != e2 || v != v2)
             v = "MISMATCH";
+        if (n <= 8)
+        {
+            // the same index on a TEMPORARY arguments object (`parser.parse(...).get(i)`)
+            std::string v3, v4;
+            std::string e3 = guarded([&] { v3 = hex(no::arguments(a).get(i)); });
+            std::string e4 = guarded([&] {
+                no::arguments tmp(a);
+                v4 = hex(std::move(tmp)[i]);
+            });
+            if (e3 != e || v3 != v2 || e4 != e || v4 != v2)
+                v = "MISMATCH-ON-TEMPORARY";
+        }
         if (i != -n - 1)
             s << ",";
         s << i << "=" << (e.empty() ? v : "!" + e);
@@ -276,6 +312,8 @@ int main()
             bool has_desc = w.size() > 4;
             obj o;
             std::string e = guarded([&] {
+              // the name as std::string / const char* / oversized character buffer, in rotation
+              with_text(unhex(w[3]), [&](auto&& name) -> int {
                 if (c == "OPT")
                 {
                     o.kind = 'o';
@@ -307,6 +345,8 @@ int main()
                     else
                         o.t = &st.groups.at(g)->toggle(name, desc);
                 }
+                return 0;
+              });
             });
             if (e.empty())
             {
@@ -337,28 +377,34 @@ int main()
                 if (c == "SN")
                 {
                     auto v = unhex(w[2]);
-                    ret = o.kind == 'o' ? (const void*)&o.o->short_name(v) :
-                          o.kind == 'm' ? (const void*)&o.m->short_name(v) :
-                                          (const void*)&o.t->short_name(v);
+                    ret = with_text(v, [&](auto&& x) -> const void* {
+                        return o.kind == 'o' ? (const void*)&o.o->short_name(x) :
+                               o.kind == 'm' ? (const void*)&o.m->short_name(x) :
+                                               (const void*)&o.t->short_name(x);
+                    });
                 }
                 else if (c == "EV")
                 {
                     auto v = unhex(w[2]);
-                    ret = o.kind == 'o' ? (const void*)&o.o->env(v) :
-                          o.kind == 'm' ? (const void*)&o.m->env(v) :
-                                          (const void*)&o.t->env(v);
+                    ret = with_text(v, [&](auto&& x) -> const void* {
+                        return o.kind == 'o' ? (const void*)&o.o->env(x) :
+                               o.kind == 'm' ? (const void*)&o.m->env(x) :
+                                               (const void*)&o.t->env(x);
+                    });
                 }
                 else if (c == "MV")
                 {
                     auto v = unhex(w[2]);
-                    ret = o.kind == 'o' ? (const void*)&o.o->metavar(v) :
-                          o.kind == 'm' ? (const void*)&o.m->metavar(v) :
-                                          (const void*)&o.t->metavar(v);
+                    ret = with_text(v, [&](auto&& x) -> const void* {
+                        return o.kind == 'o' ? (const void*)&o.o->metavar(x) :
+                               o.kind == 'm' ? (const void*)&o.m->metavar(x) :
+                                               (const void*)&o.t->metavar(x);
+                    });
                 }
                 else if (c == "DV")
                 {
                     if (o.kind == 'o')
-                        ret = &o.o->default_value(unhex(w.at(2)));
+                        ret = with_text(unhex(w.at(2)), [&](auto&& x) -> const void* { return &o.o->default_value(x); });
                     else if (o.kind == 'm')
                     {
                         std::vector<std::string> d;
@@ -367,7 +413,27 @@ int main()
                         ret = &o.m->default_value(d);
                     }
                     else
-                        ret = &o.t->default_value(std::atoi(w.at(2).c_str()));
+                    {
+                        // the count as int prvalue, int lvalue, const int&, short (promoted), in rotation
+                        static unsigned long dcalls = 0;
+                        int n = std::atoi(w.at(2).c_str());
+                        const int& cn = n;
+                        short sn = static_cast<short>(n);
+                        switch (dcalls++ % 4)
+                        {
+                        case 0:
+                            ret = &o.t->default_value(std::atoi(w.at(2).c_str()));
+                            break;
+                        case 1:
+                            ret = &o.t->default_value(n);
+                            break;
+                        case 2:
+                            ret = &o.t->default_value(cn);
+                            break;
+                        default:
+                            ret = sn == n ? &o.t->default_value(sn) : &o.t->default_value(n);
+                        }
+                    }
                 }
                 else if (c == "DB")
                 {
@@ -554,6 +620,19 @@ int main()
                     s << (m ? a.as<unsigned long>(name, i) : a.as<unsigned long>(name));
                 else if (ty == "short")
                     s << (m ? a.as<short>(name, i) : a.as<short>(name));
+                else if (ty == "ushort")
+                    s << (m ? a.as<unsigned short>(name, i) : a.as<unsigned short>(name));
+                else if (ty == "ullong")
+                    s << (m ? a.as<unsigned long long>(name, i) : a.as<unsigned long long>(name));
+                else if (ty == "size_t")
+                    s << (m ? a.as<std::size_t>(name, i) : a.as<std::size_t>(name));
+                else if (ty == "int64")
+                    s << (m ? a.as<std::int64_t>(name, i) : a.as<std::int64_t>(name));
+                else if (ty == "ldouble")
+                {
+                    s.precision(21);
+                    s << (m ? a.as<long double>(name, i) : a.as<long double>(name));
+                }
                 else if (ty == "double")
                     s << (m ? a.as<double>(name, i) : a.as<double>(name));
                 else if (ty == "float")
